@@ -55,7 +55,7 @@ theorem WRel.alloc {env : Env} {η : Hp} {w : World} {gw : GWorld} (hw : WRel en
     rw [← hw.lenT]; simp
   have hL : (η.locs ++ [gw.heap.size])[w.store.size]? = some gw.heap.size := by
     rw [← hw.lenL]; simp
-  refine ⟨hle, ⟨hw.out, hw.externs, by simp [hw.lenT], by simp [hw.lenL], ?_, ?_, ?_, ?_, hw.cap⟩, by simp [VRel, hL], by simp [HasTy, hT]⟩
+  refine ⟨hle, ⟨hw.out, hw.externs, by simp [hw.lenT], by simp [hw.lenL], ?_, ?_, ?_, ?_, hw.cap, hw.eager⟩, by simp [VRel, hL], by simp [HasTy, hT]⟩
   · rw [List.nodup_append]
     refine ⟨hw.inj, by simp, fun a ha b hb => ?_⟩
     simp only [List.mem_singleton] at hb; subst hb
@@ -97,7 +97,7 @@ theorem WRel.allocImm {env : Env} {η : Hp} {w : World} {gw : GWorld} (hw : WRel
     WRel env ⟨η.tys, η.locs, η.fns, η.imm ++ [(gw.heap.size, c)]⟩ w { gw with heap := gw.heap.push c } := by
   have hle : η.le ⟨η.tys, η.locs, η.fns, η.imm ++ [(gw.heap.size, c)]⟩ :=
     ⟨List.prefix_refl _, List.prefix_refl _, rfl, fun _ h => List.mem_append_left _ h⟩
-  refine ⟨hle, ⟨hw.out, hw.externs, hw.lenT, hw.lenL, hw.inj, ?_, ?_, ?_, hw.cap⟩⟩
+  refine ⟨hle, ⟨hw.out, hw.externs, hw.lenT, hw.lenL, hw.inj, ?_, ?_, ?_, hw.cap, hw.eager⟩⟩
   · intro gl hgl
     simp only [Array.size_push]
     have := hw.bound gl hgl; omega
@@ -147,7 +147,7 @@ theorem WRel.set {env : Env} {η : Hp} {w : World} {gw : GWorld} (hw : WRel env 
     · rw [Array.getElem?_eq_none h] at hs0; cases hs0
   have hT : η.tys[l]? = some e := by simpa [HasTy] using hl
   have hglb : gl < gw.heap.size := hw.bound gl (List.mem_of_getElem? hloc)
-  refine ⟨gl, hloc, hlt, ⟨gv0, hc0⟩, ⟨hw.out, hw.externs, by simp [hw.lenT], by simp [hw.lenL], hw.inj, ?_, ?_, ?_, hw.cap⟩⟩
+  refine ⟨gl, hloc, hlt, ⟨gv0, hc0⟩, ⟨hw.out, hw.externs, by simp [hw.lenT], by simp [hw.lenL], hw.inj, ?_, ?_, ?_, hw.cap, hw.eager⟩⟩
   · intro g hgm; simp only [Array.set!_eq_setIfInBounds, Array.size_setIfInBounds]; exact hw.bound g hgm
   · intro l' v' hl'
     simp only [Array.set!_eq_setIfInBounds, Array.getElem?_setIfInBounds] at hl'
